@@ -228,6 +228,57 @@ def generations_policy(interval, silent_first, per_conn=3):
     return choose
 
 
+def paused_gap_case(tid, interval, how, opener, intervals=6):
+    """Back-pressure meets the monitor: a subchannel of the Leader has its producer paused when the connection is lost; during the gap
+    the application lets go (resumeProducing / stopProducing / loseConnection); the next connection's peer answers every ping at once.
+    Whatever the Leader remembers of the pause must not keep it from reading the pongs of a peer that answers."""
+    run = TimerRun(interval)
+    w = run.w
+    snaps, lines = [], []
+    timers_max = 0
+
+    def step(la):
+        nonlocal timers_max
+        run.do(la)
+        timers_max = max(timers_max, len(run._timer_calls()))
+        snaps.append({"now": int(reactor.seconds()), "conn": run.conn_no if run.live else 0, "stopped": False, "timer": run.projection()["timer"]})
+    step(("ConnMade", 1))
+    try:
+        w.listen("L", "p")
+        w.listen("F", "p")
+        res = w.open(opener, "p")
+        w.pump()
+        lp = res if opener == "L" else (w.sides["L"].factories["p"].built or [None])[-1]
+        if lp is None or lp.transport is None:
+            raise RuntimeError("no subchannel protocol on the Leader")
+        lp.transport.pauseProducing()
+        if how != "held":
+            step(("ConnLost", 1))
+            {"resume": lp.transport.resumeProducing, "stop": lp.transport.stopProducing, "close": lp.transport.loseConnection}[how]()
+        w.settle()
+    except Exception as e:
+        run.errors.append("setup %s: %s" % (type(e).__name__, str(e)[:100]))
+    policy = generations_policy(interval, 0, per_conn=intervals + 4)
+    t_end = int(reactor.seconds()) + intervals * interval
+    for _ in range(intervals * interval * 4 + 10):
+        if int(reactor.seconds()) >= t_end:
+            break
+        acts = real_enabled(run, interval, t_end + 1, 2, False)
+        la = policy(run, acts)
+        if la is None or la[0] in ("ConnLost", "Stop"):
+            break
+        step(la)
+    rec = {"tid": tid, "I": interval, "now": int(reactor.seconds()), "conn": run.conn_no if run.live else 0, "stopped": False,
+           "pings": [{"conn": p["conn"], "sent": p["sent"], "answered": p["answered"], "lost": p["lost"]} for p in run.pings],
+           "dropped": run.dropped, "timer": run.projection()["timer"], "maxTimers": timers_max, "snaps": snaps,
+           "internal": run.errors + [repr(e)[:100] for e in run.w.logged] + [repr(e)[:100] for s_ in run.w.sides.values() for e in s_.errors]}
+    # ground truth kept by the harness: is the Leader's application still asking for the pause (it never said resume / stop)?
+    rec["appHoldsPause"] = how in ("close", "held")
+    run.schedule.insert(0, ["paused-gap", how, opener])
+    run.w.close()
+    return run, rec
+
+
 def real_walk(tid, interval, rng, horizon, max_conns, nsteps=40, script=None, policy=None):
     """Code -> spec: a seeded random walk over what the real Leader Manager + TrafficTimer can do, recorded step by step
     (action + projection) for validation against DilationTimer.tla, and judged by the observer like every other run."""
@@ -456,6 +507,18 @@ def run(prop, tier):
         cov["trace_validation"] = dict(tv, rule="each walk = up to 40 environment steps chosen among what the real Manager/TrafficTimer "
                                        "offers; accepted = DilationTimer.tla has a behaviour with the same actions and the same projected "
                                        "state (TrafficTimer state, deadline, connection, pings, monitor drops) after every step")
+        # family: a pause that outlives its connection (back-pressure x monitor)
+        n = 0
+        for interval in (2, 3):
+            for how in ("resume", "stop", "close", "held"):
+                for opener in ("L", "F"):
+                    tid += 1
+                    n += 1
+                    run_, rec = paused_gap_case(tid, interval, how, opener)
+                    rec["origin"], rec["config"] = "paused-gap:%s:%s" % (how, opener), "I%d" % interval
+                    records.append(rec)
+                    meta[tid] = {"schedule": run_.schedule, "I": interval}
+        cov["paused_gap_cases"] = n
         # family: the interval the application configures through the public API is the one the monitor keeps
         n = 0
         for interval in ((5, 47) if quick else (2, 5, 29, 47, 120)):
@@ -491,9 +554,11 @@ def run(prop, tier):
         bad = [n for n in OBS_NAMES if not verdicts[rec["tid"]][n]]
         if bad:
             failing += 1
-            v.violation({"clause": bad[0], "I": rec["I"]}, "%s fails on the real Manager/TrafficTimer: %s" % (
-                ",".join(bad), json.dumps({k: rec[k] for k in ("I", "now", "conn", "pings", "dropped", "timer", "internal")})[:600]),
-                dict(meta[rec["tid"]], observation=rec))
+            for clause in bad:          # each clause on its own: a known finding about one never hides another
+                v.violation({"clause": clause, "I": rec["I"], "app_holds_pause": bool(rec.get("appHoldsPause"))},
+                            "%s fails on the real Manager/TrafficTimer: %s" % (
+                    clause, json.dumps({k: rec[k] for k in ("I", "now", "conn", "pings", "dropped", "timer", "internal")})[:600]),
+                    dict(meta[rec["tid"]], observation=rec))
     cov.update(states=states, transitions=transitions, traces_validated_against_impl=len(records), evaluations=len(records),
                distinct_nontrivial=len(distinct), failing_runs=failing, replay_drift_count=ndrift,
                rule="a run = one TLC behaviour of DilationTimer.tla (pong latencies, silence, loss, reconnect, stop at every tick) "
